@@ -115,8 +115,17 @@ def run(ctx):
                         s["ns"] = s["ns"][:1]
                     elif s["k"] == "binary":
                         s["n"] = 1
-            meta0 = {"specs": specs}
-            ok, task = call(gen.make_task, specs)
+            # names: v0, v1, … — or (one task in four) distinct top-level names of which a later one coincides with the name a
+            # multi-variable gives its second child (`x`, then `x1`): one entry per DECLARED variable, keyed by ITS name, whatever the children are called
+            names = [f"v{i}" for i in range(len(specs))]
+            if rng.random() < 0.25:
+                for j, sj in enumerate(specs):
+                    if gen.spec_size(sj) >= 2 and sj["k"] in ("contMulti", "multiObj", "discMulti", "binary") and j + 1 < len(specs):
+                        names[j] = "x"
+                        names[j + 1] = "x1"
+                        break
+            meta0 = {"specs": specs, "names": names}
+            ok, task = call(lambda: gen.make_task(specs, names=names))
             if not ok:
                 ctx.fail("C14/Task/construction", f"valid declarations rejected: {task!r}", SUITE, meta0)
                 continue
@@ -165,7 +174,7 @@ def run(ctx):
                 # transform
                 okt, d = call(task.transform_solution, y)
                 if okt:
-                    impl = [[i, list(render_decoded(s, d.get(f"v{i}")))] for i, s in enumerate(specs)] if list(d.keys()) == [f"v{i}" for i in range(len(specs))] else {"keys": list(d.keys())}
+                    impl = [[i, list(render_decoded(s, d.get(names[i])))] for i, s in enumerate(specs)] if list(d.keys()) == names else {"keys": list(d.keys())}
                 else:
                     impl = rerr(d)
                 C.add({"op": "task.transform", "task": tj, "c": [coord_json(c) for c in y]}, impl, {**meta, "op": "transform", "y": repr(y)})
@@ -175,7 +184,7 @@ def run(ctx):
                     ctx.fail(sig, f"transform_solution raised {d!r}", SUITE, meta)
                 else:
                     # independent oracle: one entry per declared variable, keyed by name, the decoded slice
-                    if list(d.keys()) != [f"v{i}" for i in range(len(specs))]:
+                    if list(d.keys()) != names:
                         ctx.fail("C14/Task.transform_solution/keys", f"{list(d.keys())}", SUITE, meta)
                     else:
                         off = 0
@@ -197,8 +206,8 @@ def run(ctx):
                             else:
                                 labels = sorted(set(ch), key=lambda x: (isinstance(x, (int, float)), x))
                                 exp = [labels[c] for c in sl[0]]
-                            if repr(d[f"v{i}"]) != repr(exp):
-                                ctx.fail("C14/Task.transform_solution/not-decoded-slice", f"v{i}: {d[f'v{i}']!r} != {exp!r}", SUITE, meta)
+                            if repr(d[names[i]]) != repr(exp):
+                                ctx.fail("C14/Task.transform_solution/not-decoded-slice", f"{names[i]}: {d[names[i]]!r} != {exp!r}", SUITE, meta)
             # ---- a task derived from an already used one (same kinds and sizes, other parameters): its description must be its own
             if rep == 1 and not has_perm:
                 specs2 = []
@@ -266,7 +275,7 @@ def replay(case):
     import json
     print(json.dumps(case, indent=1, default=str))
     c = case["case"]
-    task = gen.make_task(c["specs"])
+    task = gen.make_task(c["specs"], names=c.get("names"))
     sig = case["signature"]
     try:
         if "get_bounds" in sig:
